@@ -141,3 +141,29 @@ Theorem formula_shape (ppf : Q -> Q -> Q -> Q) (alpha lo hi ws wss mu sg kp : Q)
   (gauss_lb ppf alpha lo ws wss mu sg kp + ppf ((3 + alpha) * (1 # 4)) (ws * mu) (agg_variance sg kp ws wss) == lo)%Q /\
   (gauss_ub ppf alpha hi ws wss mu sg kp - ppf ((3 + alpha) * (1 # 4)) (ws * mu) (agg_variance sg kp ws wss) == hi)%Q.
 Proof. unfold gauss_lb, gauss_ub. split; ring. Qed.
+
+(* the reported bound never falls below the votes already counted in the group, and is the un-floored formula whenever that is larger *)
+From Coq Require Import Qminmax Lqa.
+Lemma reported_bound_floor (upper : bool) (unadjusted wsum ppfv vn rest : Q) :
+  (vn + rest <= reported_bound upper unadjusted wsum ppfv vn rest)%Q.
+Proof.
+  unfold reported_bound.
+  pose proof (Q.le_max_r (wsum + (if upper then unadjusted + ppfv else unadjusted - ppfv)) vn) as H.
+  lra.
+Qed.
+
+Lemma reported_bound_unfloored (upper : bool) (unadjusted wsum ppfv vn rest : Q) :
+  (vn <= wsum + (if upper then unadjusted + ppfv else unadjusted - ppfv))%Q ->
+  (reported_bound upper unadjusted wsum ppfv vn rest == wsum + (if upper then unadjusted + ppfv else unadjusted - ppfv) + rest)%Q.
+Proof.
+  intros H. unfold reported_bound. rewrite Q.max_l by exact H. reflexivity.
+Qed.
+
+Lemma reported_bound_ordered (ul uu wsum pl pu vn rest : Q) :
+  (ul - pl <= uu + pu)%Q -> (reported_bound false ul wsum pl vn rest <= reported_bound true uu wsum pu vn rest)%Q.
+Proof.
+  intros H. unfold reported_bound.
+  assert (Qmax (wsum + (ul - pl)) vn <= Qmax (wsum + (uu + pu)) vn)%Q as Hm.
+  { apply Q.max_le_compat_r. lra. }
+  lra.
+Qed.
